@@ -337,6 +337,25 @@ func scenCollisionWindow(e *Env, args []string, r *rand.Rand) {
 		in.drainClose()
 	case "fsmerr":
 		in.send(wire.Update([]byte{0, 0, 0, 0}))
+	case "queued-close", "queued-delete":
+		// a further connection arrives while the manager is busy and the peer is stopped before the manager gets
+		// back to its loop: the connection must not be left open (whether it is served depends on what the manager
+		// finds when it gets to it, so the admission monitor is not asked)
+		in2 := p.remote.dial()
+		time.Sleep(5 * time.Millisecond)
+		done := make(chan struct{})
+		go func() {
+			if variant == "queued-delete" {
+				p.delete()
+			}
+			e.close()
+			close(done)
+		}()
+		time.Sleep(10 * time.Millisecond)
+		release()
+		<-done
+		_ = in2
+		return
 	}
 	time.Sleep(time.Duration(r.Intn(3000)) * time.Microsecond)
 	release()
@@ -652,16 +671,33 @@ func scenReconnect(e *Env, args []string, r *rand.Rand) {
 
 // inbound-resume: an inbound session ends; the peer resumes dialling at once and accepts a new inbound
 func scenInboundResume(e *Env, args []string, r *rand.Rand) {
-	p := e.addPeer(1, PeerOpts{LocalAS: localAS, RemoteAS: remoteAS, Hold: 90, IdleHold: 300 * time.Millisecond, NoListen: true})
+	// inbound-resume[:st=<state>][:passive=1]: an inbound connection is ended by a Cease from the remote in <state>;
+	// an active peer dials again at once, and the next inbound connection is admitted
+	m := argMap(args)
+	st := m["st"]
+	if st == "" {
+		st = "established"
+	}
+	passive := m["passive"] == "1"
+	p := e.addPeer(1, PeerOpts{LocalAS: localAS, RemoteAS: remoteAS, Hold: 90, IdleHold: 300 * time.Millisecond, NoListen: true, Passive: passive})
 	e.serve()
-	c := p.bring("in", "established", 90, remoteID)
+	c := p.bring("in", st, 90, remoteID)
 	if c != nil {
+		from := e.tr.len()
 		c.send(wire.Notification(6, 2, nil))
 		c.waitEnd(stepWait)
-		p.waitEv(0, stepWait, "cb.exit", "OnClose")
+		if st == "established" {
+			p.waitEv(0, stepWait, "cb.exit", "OnClose")
+		} else {
+			p.waitEv(from, stepWait, "log.t", "in", st, "*")
+			time.Sleep(5 * time.Millisecond)
+		}
 		p.mark = e.tr.len()
 		e.tr.log(p.key, "inbound-ended")
-		p.waitEv(p.mark, 2*time.Second, "dial")
+		if !passive {
+			p.waitEv(p.mark, 2*time.Second, "dial")
+		}
+		e.tr.log(p.key, "probe", "known", p.addr.String(), "127.0.0.1")
 		p.bring("in", "established", 90, remoteID)
 	}
 	e.close()
@@ -706,6 +742,21 @@ func scenDamping(e *Env, args []string, r *rand.Rand) {
 		probe.drainClose()
 	}
 	time.Sleep(wait - wait/3)
+	if m["expire"] == "1" {
+		// the hold-down period ends (the timer is made to fire now through the verif hook): the peer is retried and
+		// can establish again
+		p.mark = e.tr.len()
+		e.tr.log(p.key, "hook.expire")
+		bgp.VerifExpireStartupDelay(e.srv, p.addr)
+		time.Sleep(20 * time.Millisecond)
+		if dir == "in" {
+			e.tr.log(p.key, "probe", "known", p.addr.String(), "127.0.0.1")
+		}
+		if c2 := p.bring(dir, "established", 90, remoteID); c2 != nil {
+			c2.send(wire.Update([]byte{0, 0, 0, 9}))
+			p.waitEv(p.mark, stepWait, "cb.exit", "handler")
+		}
+	}
 	e.close()
 }
 
@@ -1164,10 +1215,14 @@ func init() {
 		}
 		// API calls racing each other and Close
 		out = append(out, scenarioLists["C20"](tier, r)...)
+		for i := 0; i < 3; i++ {
+			out = append(out, fmt.Sprintf("collision-window:queued-close:lid=10.0.0.100:i=%d", i), fmt.Sprintf("collision-window:queued-delete:lid=10.0.0.100:i=%d", i))
+		}
 		return out
 	}
 	scenarioLists["C11"] = func(tier string, r *rand.Rand) []string {
 		out := []string{"reconnect:refuse:ih=200:cr=500", "reconnect:refuse:ih=50:cr=500", "reconnect:x:passive", "inbound-resume",
+			"inbound-resume:st=openSent", "inbound-resume:st=openConfirm", "inbound-resume:st=established:passive=1", "inbound-resume:st=openConfirm:passive=1",
 			"reconnect:stall:ih=100:cr=300", "inbound-fin:passive", "inbound-fin:active"}
 		if tier == "thorough" {
 			out = append(out, "reconnect:refuse:ih=1000:cr=2000")
@@ -1215,6 +1270,10 @@ func init() {
 			}
 		}
 		out = append(out, "damping-both:ka", "damping-both:badmarker", "damping-both:notif-other")
+		// the end of the hold-down period (timer expired through the hook): retried, establishes again
+		for _, dir := range []string{"out", "in"} {
+			out = append(out, fmt.Sprintf("damping:%s:established:sent.badmarker:expire=1:ms=600", dir), fmt.Sprintf("damping:%s:openConfirm:rcvd.3:expire=1:ms=600", dir))
+		}
 		// a protocol error pending in the FSM's error hand-off when the manager stops that FSM (collision kill)
 		out = append(out, "collision-window:fsmerr:lid=10.0.0.100:i=0", "collision-window:fsmerr:lid=10.0.0.100:i=1")
 		return out
@@ -1229,6 +1288,9 @@ func init() {
 		}
 		for i := 0; i < 6; i++ {
 			out = append(out, fmt.Sprintf("admission:specific-prequeued:i=%d", i))
+		}
+		for i := 0; i < 3; i++ {
+			out = append(out, fmt.Sprintf("collision-window:queued-close:lid=10.0.0.100:i=%d", i), fmt.Sprintf("collision-window:queued-delete:lid=10.0.0.100:i=%d", i))
 		}
 		// an active peer whose outbound connection is in OpenConfirm (not Established) still admits the remote's connection
 		out = append(out, "collision:lid=10.0.0.100:first=out:late=1:i=a", "collision:lid=10.0.1.44:first=out:late=1:i=a",
@@ -1254,6 +1316,8 @@ func init() {
 				out = append(out, fmt.Sprintf("api-race:%s:i=%d", k, i))
 			}
 		}
+		// a registered peer operates: its inbound connection is served, also through a wildcard / dual-stack listener
+		out = append(out, "admission:wild-known", "admission:specific-known", "admission:wild-local-known")
 		return out
 	}
 	scenarioLists["C14"] = func(tier string, r *rand.Rand) []string {
